@@ -51,14 +51,16 @@ func determine(r klog.Record, b txt.Block) *style {
 			return nil
 		})
 	}
-	for _, l := range b.Lines() {
+	// Only the lines of the record itself are relevant, not the blank lines around it.
+	significantLines, _, _ := b.SignificantLines()
+	for _, l := range significantLines {
 		if l.Indentation() != "" {
 			s.indentation.Set(l.Indentation())
 			break
 		}
 	}
-	if len(b.Lines()) > 0 && b.Lines()[0].LineEnding != "" {
-		s.lineEnding.Set(b.Lines()[0].LineEnding)
+	if len(significantLines) > 0 && significantLines[0].LineEnding != "" {
+		s.lineEnding.Set(significantLines[0].LineEnding)
 	}
 	return s
 }
